@@ -9,7 +9,7 @@ comparison mode; identity of reported old/new; agreement of the mechanisms.
 import numpy as np
 from hypothesis import strategies as st
 
-from traits.api import (HasTraits, Any, Int, Str, List, Instance, Event, Float, TraitError,
+from traits.api import (HasTraits, Any, Int, Str, List, Instance, Event, Float, TraitError, CInt,
                         push_exception_handler, pop_exception_handler)
 from traits.trait_base import Undefined
 from traits.observation.api import (push_exception_handler as obs_push, pop_exception_handler as obs_pop)
@@ -50,9 +50,9 @@ s1, s2 = "".join(["a", "b"]), "".join(["a", "b"])
 f1, f2 = Foo(), Foo()
 arr1, arr2 = np.array([1, 2]), np.array([1, 2])
 POOL = [0, 1, 1.0, True, 2, nan1, nan2, l1, l2, [3], s1, s2, "c", None, f1, f2, BadEq(), (1,), (1,), "bad", 3.5,
-        arr1, arr2, np.array([1, 3]), 1 + 0j, [], 257, 257 + 0, 2.0]
+        arr1, arr2, np.array([1, 3]), 1 + 0j, [], 257, 257 + 0, 2.0, "12", "7"]
 MODES = {"n": 0, "i": 1, "e": 2}
-KINDS = ["Any", "Int", "Str", "List", "Inst", "Event", "Float"]
+KINDS = ["Any", "Int", "Str", "List", "Inst", "Event", "Float", "CEvent"]
 VALID = {
     "Any": list(range(len(POOL))),
     "Int": [0, 1, 3, 4, 26, 27],
@@ -60,12 +60,13 @@ VALID = {
     "List": [7, 8, 9, 25],
     "Inst": [13, 14, 15],
     "Event": list(range(len(POOL))),
+    "CEvent": [0, 1, 2, 3, 4, 20, 26, 28, 29, 30, 29, 30],      # a TYPED event, Event(CInt): handlers are told the validated value
     "Float": [0, 1, 2, 5, 6, 20, 28],
 }
 NAMES = []
 for _k in KINDS:
     for _m in MODES:
-        if _k == "Event" and _m != "e":
+        if _k in ("Event", "CEvent") and _m != "e":
             continue
         NAMES.append("%s_%s" % (_k.lower(), _m))
 
@@ -74,7 +75,7 @@ def mk(kind, mode):
     cm = MODES[mode]
     return {"Any": lambda: Any(comparison_mode=cm), "Int": lambda: Int(comparison_mode=cm),
             "Str": lambda: Str(comparison_mode=cm), "List": lambda: List(Int, comparison_mode=cm),
-            "Inst": lambda: Instance(Foo, comparison_mode=cm), "Event": lambda: Event(),
+            "Inst": lambda: Instance(Foo, comparison_mode=cm), "Event": lambda: Event(), "CEvent": lambda: Event(CInt),
             "Float": lambda: Float(comparison_mode=cm)}[kind]()
 
 
@@ -87,7 +88,7 @@ def build(raisers, log, bare=False, sub=False):
     ns = {}
     for nm in NAMES:
         kind, mode = nm.split("_")
-        kind = {"any": "Any", "int": "Int", "str": "Str", "list": "List", "inst": "Inst", "event": "Event", "float": "Float"}[kind]
+        kind = {"any": "Any", "int": "Int", "str": "Str", "list": "List", "inst": "Inst", "event": "Event", "float": "Float", "cevent": "CEvent"}[kind]
         ns[nm] = mk(kind, mode)
         if bare and nm in BARE:
             continue
@@ -98,7 +99,7 @@ def build(raisers, log, bare=False, sub=False):
                 if "static" in raisers:
                     raise RuntimeError("boom")
             return static
-        ns["_%s_%s" % (nm, "fired" if kind == "Event" else "changed")] = mkstatic(nm)
+        ns["_%s_%s" % (nm, "fired" if kind in ("Event", "CEvent") else "changed")] = mkstatic(nm)
 
     def anyt(self, name, old, new):
         if name in NAMES:
@@ -120,7 +121,7 @@ def build(raisers, log, bare=False, sub=False):
 @st.composite
 def op_strategy(draw):
     ni = draw(st.integers(0, len(NAMES) - 1))
-    kind = {"any": "Any", "int": "Int", "str": "Str", "list": "List", "inst": "Inst", "event": "Event", "float": "Float"}[NAMES[ni].split("_")[0]]
+    kind = {"any": "Any", "int": "Int", "str": "Str", "list": "List", "inst": "Inst", "event": "Event", "float": "Float", "cevent": "CEvent"}[NAMES[ni].split("_")[0]]
     op = draw(st.sampled_from(["set", "set", "set", "set", "set", "read", "setq", "setq_kw"]))
     if draw(st.integers(0, 99)) < 85:
         vi = draw(st.sampled_from(VALID[kind]))
@@ -197,6 +198,9 @@ def run(case, ctx):
         for (ni, op, vi) in case["ops"]:
             nm = NAMES[ni]
             kind, mode = nm.split("_")
+            typed_event = kind == "cevent"
+            if typed_event:
+                kind = "event"
             del log[:]
             if op == "read":
                 if kind == "event":
@@ -297,7 +301,11 @@ def run(case, ctx):
                     ctx.fail("count/object-level", "first object-level handler called %d time(s), expected %d: %s" % (ol1, want1, what))
             for m, lst in by.items():
                 for (old, new) in lst:
-                    if kind == "event":
+                    if kind == "event" and typed_event:
+                        if not (old is Undefined and type(new) is int and new == int(v)):
+                            ctx.fail("event/old-new", "%s handler got old=%r new=%r (%s) for the typed event fired with %r: the "
+                                     "validated value is %r" % (m, old, new, type(new).__name__, v, int(v)))
+                    elif kind == "event":
                         if not (old is Undefined and new is v):
                             ctx.fail("event/old-new", "%s handler got old=%r new=%r for event fired with %r" % (m, old, new, v))
                     elif not (old is before and new is after):
